@@ -14,7 +14,7 @@ LLVM_LINK = 'llvm-link-14'
 OPT = 'opt-14'
 
 INCLUDES = ['-I' + REPO, '-I' + os.path.join(REPO, 'libcds/includes'), '-I' + RT]
-IRFLAGS_O1 = ['-std=c++17', '-O1', '-fno-inline', '-fno-vectorize', '-fno-slp-vectorize', '-fno-unroll-loops', '-w', '-S', '-emit-llvm']
+IRFLAGS_O1 = ['-std=c++17', '-O1', '-fno-inline', '-I' + os.path.join(VERIF, 'harness'), '-fno-vectorize', '-fno-slp-vectorize', '-fno-unroll-loops', '-w', '-S', '-emit-llvm']
 IRFLAGS_INL = ['-std=c++17', '-O1', '-fno-vectorize', '-fno-slp-vectorize', '-fno-unroll-loops', '-w', '-S', '-emit-llvm']
 IRFLAGS_O0 = ['-std=c++17', '-O0', '-Xclang', '-disable-O0-optnone', '-w', '-S', '-emit-llvm']
 
@@ -138,7 +138,7 @@ class Runner:
         def build():
             out = os.path.join(self.work, '_obj', key + '_' + os.path.basename(src) + '.o')
             os.makedirs(os.path.dirname(out), exist_ok=True)
-            flags = ['-std=c++17', '-O1', '-g', '-w', '-c']
+            flags = ['-std=c++17', '-O1', '-g', '-w', '-c', '-I' + os.path.join(VERIF, 'harness')]
             if san:
                 flags += ['-fsanitize=address,undefined', '-fno-omit-frame-pointer']
             cmd = ['g++'] + flags + INCLUDES + ['-D' + GUARD] + dflags(defs) + [src, '-o', out]
